@@ -80,6 +80,7 @@ type TaskResult struct {
 	Samples      []Sample
 	MaxPC        int
 	Witnesses    []Violation
+	Repairs      int64 // sat answers found by model repair + evaluation instead of the solver
 }
 
 type Engine struct {
